@@ -310,8 +310,8 @@ func (w *Witness) Update(pk *gabikeys.PublicKey, update *Update) error {
 		return err
 	}
 	// (a witness that was read from storage has not unmarshaled its accumulator yet)
-	if w.SignedAccumulator == nil {
-		return errors.New("witness has no accumulator")
+	if w.U == nil || w.E == nil || w.SignedAccumulator == nil {
+		return errors.New("incomplete witness")
 	}
 	ourAcc, err := w.SignedAccumulator.UnmarshalVerify(pk)
 	if err != nil {
